@@ -188,7 +188,7 @@ def world(ctx, assigned, live_out, exposed=None):
             name = interp.call(interp.getattr(slf, "_generate_unique_name"), [var])
             v = interp.call(interp.getattr(slf, "_emit"), [[name], "Op_" + node.label, []])
             v.fields["ghost_var"] = var
-            sv = interp.call(values.SymbolValue, [v, Opaque("info")])
+            sv = interp.call(values.SymbolValue, [v, CM.real_info()])
             interp.call(interp.getattr(slf, "_bind"), [var, sv])
     I.models[C._translate_stmt] = m_translate_stmt
 
@@ -234,7 +234,7 @@ def bind_outer(I, self, top, names):
         name = I.call(I.getattr(self, "_generate_unique_name"), [var])
         v = I.call(I.getattr(self, "_emit"), [[name], "Outer", []])
         v.fields["ghost_var"] = var
-        I.call(I.getattr(self, "_bind"), [var, I.call(values.SymbolValue, [v, Opaque("info")])])
+        I.call(I.getattr(self, "_bind"), [var, I.call(values.SymbolValue, [v, CM.real_info()])])
 
 
 def structure(log):
@@ -251,10 +251,16 @@ def structure(log):
 VARS = ["a", "b", "c"]
 
 
-def _if_case(ctx):
-    """assigned-in-then, assigned-in-else, live-out, bound-outside: subsets of up to 3 variables."""
-    k = 1 + ctx.choose(3, "nvars")
+_CANON = {}
+
+
+def _if_case(ctx, k):
+    """assigned-in-then, assigned-in-else, live-out, bound-outside: subsets of k variables
+    (k = 3: all three assigned on both paths and live — the order-sensitive case)."""
     vs = VARS[:k]
+    if k == 3:
+        outer = vs if ctx.choose(2, "bound before") == 0 else []
+        return vs, list(vs), list(vs), list(vs), outer
     then_defs = [v for v in vs if ctx.choose(2, f"then defines {v}") == 0]
     else_defs = [v for v in vs if ctx.choose(2, f"else defines {v}") == 0]
     live = [v for v in vs if ctx.choose(2, f"{v} live after") == 0]
@@ -283,8 +289,8 @@ def run_if(ctx, case):
     return ("ok", ifn, I, self), structure(log), top
 
 
-def s_if(ctx):
-    case = _if_case(ctx)
+def s_if(ctx, k=2):
+    case = _if_case(ctx, k)
     vs, then_defs, else_defs, live, outer = case
     D = sorted((set(then_defs) | set(else_defs)) & set(live))
     res, struct1, top = run_if(ctx, case)
@@ -321,20 +327,22 @@ def s_if(ctx):
     for g, nm in ((then_g, "then"), (else_g, "else")):
         inside = all(o.fields["name"] in g.assigned_names for o in g.outputs)
         ctx.check(f"C02.converter.if.{nm}_outputs_produced_inside_the_subgraph", inside, CL_SCOPE)
-    # determinism: translate again with independently chosen iteration orders
-    res2, struct2, _ = run_if(ctx, case)
-    ctx.check("C14.converter.if.translation_independent_of_set_iteration_order", struct2 == struct1, CL_DET)
+    # determinism (2-safety): every choice of iteration orders must emit the structure of the first explored one
+    key = ("if", repr(case))
+    canon = _CANON.setdefault(key, struct1)
+    ctx.check("C14.converter.if.translation_independent_of_set_iteration_order", struct1 == canon, CL_DET)
 
 
 # ------------------------------------------------------------------ loop --------------------
 
-def _loop_case(ctx):
-    k = 1 + ctx.choose(3, "nvars")
+def _loop_case(ctx, k):
     vs = VARS[:k]
+    is_for = ctx.choose(2, "for/while") == 0
+    if k == 3:
+        return vs, list(vs), list(vs), list(vs), is_for
     body_defs = [v for v in vs if ctx.choose(2, f"body defines {v}") == 0]
     exposed = [v for v in vs if ctx.choose(2, f"{v} used before defined in body") == 0]
     live = [v for v in vs if ctx.choose(2, f"{v} live after") == 0]
-    is_for = ctx.choose(2, "for/while") == 0
     return vs, body_defs, exposed, live, is_for
 
 
@@ -360,7 +368,7 @@ def run_loop(ctx, case):
     body = [AbstractStmt(body_defs + ([] if is_for else ["cond"]), "body")]
     stmt.fields.update(body=body, lineno=1, col_offset=0)
     C = CM._conv_cls()
-    I.models[C._translate_name_expr] = lambda interp, slf, node: interp.call(interp.getattr(slf, "_py_var_to_onnx_var"), [node.fields["id"], Opaque("info")])
+    I.models[C._translate_name_expr] = lambda interp, slf, node: interp.call(interp.getattr(slf, "_py_var_to_onnx_var"), [node.fields["id"], CM.real_info()])
     clo = I.closure_of(C._translate_loop_stmt)
     log = ctx.ghost["log"]
     try:
@@ -371,13 +379,14 @@ def run_loop(ctx, case):
     return ("ok", ln, I, self), structure(log)
 
 
-def s_loop(ctx):
-    case = _loop_case(ctx)
+def s_loop(ctx, k=2):
+    case = _loop_case(ctx, k)
     vs, body_defs, exposed, live, is_for = case
     S = sorted(set(body_defs) & (set(exposed) | set(live)))
     res, struct1 = run_loop(ctx, case)
     if res[0] == "raised":
-        ctx.check("C01.converter.loop.never_refuses_a_wellformed_loop", False, "C01: refused or translated faithfully")
+        # a loop without loop-carried state is refused (the real _emit cannot create a node without outputs)
+        ctx.check("C01.converter.loop.refuses_only_loops_without_state", not S, "C01: refused or translated faithfully")
         return
     _, ln, I, self = res
     ctx.cover("loop.translated." + ("for" if is_for else "while"))
@@ -415,8 +424,9 @@ def s_loop(ctx):
               CL_ALIGN + " — Loop inputs[2+k], body parameters[2+k], body outputs[1+k] and the name bound to Loop output k must be one variable")
     inside = all(o.fields["name"] in body.assigned_names for o in body.outputs)
     ctx.check("C02.converter.loop.body_outputs_produced_inside_the_body", inside, CL_SCOPE)
-    res2, struct2 = run_loop(ctx, case)
-    ctx.check("C14.converter.loop.translation_independent_of_set_iteration_order", struct2 == struct1, CL_DET)
+    key = ("loop", repr(case))
+    canon = _CANON.setdefault(key, struct1)
+    ctx.check("C14.converter.loop.translation_independent_of_set_iteration_order", struct1 == canon, CL_DET)
 
 
 # ------------------------------------------------------------------ unique names ------------
@@ -458,14 +468,21 @@ def s_generate_unique_name(ctx):
 
 F = lambda *q: [(REL, x) for x in q]
 
-SCENARIOS = [
-    Scenario("C01.converter.if", s_if, F("Converter._translate_if_stmt", "Converter._translate_block", "Converter._to_onnx_var",
+def _mk(fn, k):
+    def run(ctx):
+        return fn(ctx, k)
+    return run
+
+
+SCENARIOS = [sc for k in (1, 2, 3) for sc in [
+    Scenario(f"C01.converter.if[{k} vars]", _mk(s_if, k), F("Converter._translate_if_stmt", "Converter._translate_block", "Converter._to_onnx_var",
                                          "Converter._emit_copy", "Converter._enter_scope", "Converter._exit_scope",
                                          "Converter._bind", "Converter._current_scope"),
              kind="bounded", bound="at most 3 variables assigned/live per if statement; every subset pattern, every iteration order of every set object",
              max_paths=200000, budget_s=1200),
-    Scenario("C01.converter.loop", s_loop, F("Converter._translate_loop_stmt", "Converter._py_var_to_onnx_var", "Converter._lookup"),
+    Scenario(f"C01.converter.loop[{k} vars]", _mk(s_loop, k), F("Converter._translate_loop_stmt", "Converter._py_var_to_onnx_var", "Converter._lookup"),
              kind="bounded", bound="at most 3 loop-carried candidates; every subset pattern, every iteration order of every set object",
              max_paths=200000, budget_s=1200),
+]] + [
     Scenario("C02.converter._generate_unique_name", s_generate_unique_name, F("Converter._generate_unique_name")),
 ]
